@@ -389,6 +389,41 @@ def run(ctx, rep):
            "every worker (and the polling thread) blocks in put() and the pool is wedged for all clients" % (
                A.src(qv) if qv is not None else None), ctx.loc(qv) if qv is not None else fr.loc, kind="site")
 
+    # a new connection is in the descriptor table before the polling thread can hear about it (model evaluation of
+    # ThreadPoolServer._accept_method: the model poll object notes, at registration time, whether the table has the entry)
+    tpc = ctx.cls(SRV + ".ThreadPoolServer")
+    fam = tpc.methods.get("_accept_method")
+    if fam is not None:
+        rep.analysed(fam)
+        seen_at_register = []
+
+        class _Obj2:
+            mi_native = True
+
+            def __init__(self, **kw):
+                self.__dict__.update(kw)
+        noop2 = lambda *a, **k: None
+        st_a = {"fd_to_conn": {}, "clients": set(), "_active_connection_queue": _Obj2(put=noop2),
+                "logger": _Obj2(debug=noop2, info=noop2, warning=noop2, warn=noop2, error=noop2, exception=noop2)}
+        st_a["poll_object"] = _Obj2(register=lambda fd, *a: seen_at_register.append((fd, fd in st_a["fd_to_conn"])),
+                                    unregister=noop2, modify=noop2)
+        conn_m = _Obj2(fileno=lambda: 7, close=noop2)
+        sock_m = _Obj2(getpeername=lambda: ("10.0.0.9", 4444), close=noop2, fileno=lambda: 7)
+        all_m = {n_: m_.node for k_ in reversed(ctx.repo.mro(tpc)) for n_, m_ in k_.methods.items()}
+        try:
+            MIp.call_method(fam.node, st_a, [sock_m], {
+                "__calls__": {"self._authenticate_and_build_connection": lambda s_: (sock_m, conn_m)},
+                "__methods__": {k_: v_ for k_, v_ in all_m.items() if k_ not in ("_accept_method", "_authenticate_and_build_connection")},
+                "__max_iter__": 100})
+            okreg = seen_at_register == [(7, True)] and st_a["fd_to_conn"].get(7) is conn_m
+            rep.ob("R16.2", "ThreadPoolServer._accept_method: a new connection is in fd_to_conn before its descriptor is polled", okreg,
+                   "table entry first, poll registration second" if okreg else
+                   "registrations seen by the poll object: %s (descriptor, already in fd_to_conn?) - a hang-up reported between the "
+                   "registration and the table insert finds no entry to drop; the entry inserted afterwards belongs to a descriptor "
+                   "nobody polls any more and stays, with its socket, until the server closes" % seen_at_register, fam.loc, kind="model")
+        except (AnalysisError, MIp.Raised) as e_:
+            rep.undecided("R16.2", "ThreadPoolServer._accept_method", str(e_))
+
     # ------------------------------------------------------------------ R16.3
     # Service._connect: model evaluation - through a class, every connection gets its own service instance; through an instance,
     # that instance; the protocol object is built afresh from (instance, channel, config) and handed to on_connect
